@@ -4,6 +4,7 @@
 //         after every op the graph is drained (wait_for_all) so the forwarder task of the node has run
 //   mt  : real threads on queue/sequencer/limiter/join graphs (oracle) — see tools/props/c15.py
 #include "common.h"
+#include <memory>
 #include <mutex>
 #include <algorithm>
 #include <map>
@@ -116,6 +117,77 @@ static int lim_dec(int P, unsigned seed) {
     std::printf("OVERSHOOT %ld NEG %ld CONFIGS %ld\n", overshoot, negative, configs - configs);
     return 0;
 }
+// overwrite_node / write_once_node / broadcast_node / split_node / indexer_node: latest / first value to every present and FUTURE successor,
+// every message to all successors, every tuple element / tagged message to the matching port.  Sequential part plus puts from several threads.
+static int simple_nodes(int P, unsigned seed, int n) {
+    tbb::global_control gc(tbb::global_control::max_allowed_parallelism, P);
+    std::mt19937 r(seed);
+    long ow = 0, wo = 0, bc = 0, sp = 0, ix = 0;
+    auto drain = [](queue_node<long>& q) { std::vector<long> v; long x; while (q.try_get(x)) v.push_back(x); return v; };
+    for (int round = 0; round < n; ++round) {
+        {   // overwrite_node
+            graph g; overwrite_node<long> o(g); queue_node<long> s1(g), s2(g), s3(g);
+            if (o.is_valid()) ow++;
+            make_edge(o, s1);
+            int k = 1 + r() % 5; std::vector<long> vals; for (int i = 0; i < k; ++i) { vals.push_back(100 + r() % 1000); o.try_put(vals.back()); }
+            g.wait_for_all();
+            make_edge(o, s2);                       // a future successor gets the latest value
+            g.wait_for_all();
+            long cur = -1; if (!o.try_get(cur) || cur != vals.back() || !o.is_valid()) ow++;
+            if (drain(s1) != vals) ow++;
+            auto v2 = drain(s2); if (v2.size() != 1 || v2[0] != vals.back()) ow++;
+            o.clear(); if (o.is_valid() || o.try_get(cur)) ow++;
+            make_edge(o, s3); g.wait_for_all(); if (!drain(s3).empty()) ow++;          // nothing to deliver after clear()
+            o.try_put(7); g.wait_for_all(); auto v3 = drain(s3); if (v3.size() != 1 || v3[0] != 7) ow++;
+        }
+        {   // write_once_node
+            graph g; write_once_node<long> w(g); queue_node<long> s1(g), s2(g);
+            make_edge(w, s1);
+            long first = 200 + r() % 1000; bool a = w.try_put(first); bool b = w.try_put(first + 1); bool c2 = w.try_put(first + 2);
+            g.wait_for_all();
+            if (!a || b || c2) wo++;
+            make_edge(w, s2); g.wait_for_all();
+            long cur = -1; if (!w.try_get(cur) || cur != first) wo++;
+            auto v1 = drain(s1), v2 = drain(s2);
+            if (v1.size() != 1 || v1[0] != first || v2.size() != 1 || v2[0] != first) wo++;
+            w.clear(); if (!w.try_put(5)) wo++; g.wait_for_all(); if (!w.try_get(cur) || cur != 5) wo++;
+        }
+        {   // broadcast_node with several putting threads
+            graph g; broadcast_node<long> b(g); const int S = 1 + r() % 4; std::vector<std::unique_ptr<queue_node<long>>> qs;
+            for (int i = 0; i < S; ++i) { qs.emplace_back(new queue_node<long>(g)); make_edge(b, *qs.back()); }
+            int T = 1 + r() % 3, per = 1 + r() % 40; std::vector<std::thread> th;
+            for (int t = 0; t < T; ++t) th.emplace_back([&, t] { for (int i = 0; i < per; ++i) b.try_put(t * 1000 + i); });
+            for (auto& x : th) x.join();
+            g.wait_for_all();
+            for (int i = 0; i < S; ++i) {
+                auto v = drain(*qs[i]); if ((int)v.size() != T * per) { bc++; continue; }
+                std::vector<long> next(T, 0);                                           // per producer in order, each exactly once
+                for (long x : v) { int t = (int)(x / 1000); long j = x % 1000; if (t < 0 || t >= T || j != next[t]) { bc++; break; } next[t]++; }
+            }
+        }
+        {   // split_node
+            graph g; split_node<std::tuple<long, long>> s(g); queue_node<long> q0(g), q1(g);
+            make_edge(output_port<0>(s), q0); make_edge(output_port<1>(s), q1);
+            int k = 1 + r() % 20; std::vector<long> a, b;
+            for (int i = 0; i < k; ++i) { a.push_back(r() % 1000); b.push_back(5000 + r() % 1000); s.try_put(std::make_tuple(a.back(), b.back())); }
+            g.wait_for_all();
+            if (drain(q0) != a || drain(q1) != b) sp++;
+        }
+        {   // indexer_node
+            graph g; indexer_node<long, int> x(g); typedef indexer_node<long, int>::output_type msg_t;
+            std::vector<std::pair<int, long>> got; std::mutex m;
+            function_node<msg_t, continue_msg> f(g, serial, [&](const msg_t& mm) { std::lock_guard<std::mutex> l(m);
+                if (mm.tag() == 0) got.push_back({0, cast_to<long>(mm)}); else got.push_back({1, (long)cast_to<int>(mm)}); return continue_msg(); });
+            make_edge(x, f);
+            int k = 1 + r() % 20; std::vector<std::pair<int, long>> want;
+            for (int i = 0; i < k; ++i) { if (r() % 2) { long v = r() % 1000; input_port<0>(x).try_put(v); want.push_back({0, v}); } else { int v = (int)(r() % 1000); input_port<1>(x).try_put(v); want.push_back({1, v}); } }
+            g.wait_for_all();
+            if (got != want) ix++;
+        }
+    }
+    std::printf("OVERWRITE %ld WRITEONCE %ld BROADCAST %ld SPLIT %ld INDEXER %ld\n", ow, wo, bc, sp, ix);
+    return 0;
+}
 static int mt_join(int P, unsigned seed, int n, int policy) {   // two ports fed by different threads: queueing -> i-th with i-th; reserving -> all-or-nothing; key_matching -> same key
     tbb::global_control gc(tbb::global_control::max_allowed_parallelism, P);
     graph g;
@@ -167,6 +239,7 @@ int main(int argc, char** argv) {
     if (mode == "mtseq") return mt_sequencer(P, seed, n);
     if (mode == "mtlimiter") return mt_limiter(P, seed, n);
     if (mode == "limdec") return lim_dec(P, seed);
+    if (mode == "simplenodes") return simple_nodes(P, seed, n);
     if (mode == "mtjoin") return mt_join(P, seed, n, atoi(argv[5]));
     return 2;
 }
